@@ -5,11 +5,11 @@ from vlib.common import Violation, Discard, Inconclusive, Scratch, souffle, writ
 from vlib.pcheck import PCheck
 
 PID = "C12"
-RULE = ("Generated programs with 1-2 lattice relations R(k1..kn, v:L<>) (1-2 key columns, the lattice column last; relations with NO key column are recorded finding F24 and only probed) over three finite-height "
+RULE = ("Generated programs with 1-2 lattice relations R(k1..kn, v:L<>[, u:L<>]) (1-2 key columns, then 1-2 lattice columns with independent transfer functions; relations with NO key column are recorded finding F24 and only probed) over three finite-height "
         "lattices on a numeric subtype whose join/meet are user-defined functors from a small shared library built by the check: "
         "max (bottom -1000, top 1000), min (dual) and bit-or on 8-bit sets; seed rules from EDB relations with frequent key collisions, "
         "recursive rules over a random weighted graph applying MONOTONE transfer functions (min(v+w,cap), max(v,w), v bor w, identity), "
-        "copies between lattice relations, and plain reader relations in a later stratum. Oracle: an independent Kleene iteration on "
+        "copies between lattice relations, plain reader relations in a later stratum, and (50%) look-ups that bind only part of the key (x only / y only); about 1% of the cases run in compiled mode (-c). Oracle: an independent Kleene iteration on "
         "maps key -> lattice value (join of the values of all rule instances, to the least fixpoint); required: at most one tuple per "
         "key in souffle's output, the same key set, the same value per key, and readers see exactly those values; identical at -j1 and "
         "-j4. Non-trivial = some key receives >= 3 distinct contributions over >= 2 iterations of the fixpoint; distinct by hash of "
@@ -47,30 +47,37 @@ def transfer(kind, op, v, w, cap):
     return (v | w) & 255
 
 
-def transfer_text(kind, op, cap):
+def transfer_text(kind, op, cap, v="v"):
     if op == "id":
-        return "v"
+        return v
     if kind == "max":
-        return "as(min(v + w, %d), L)" % cap if op == "add" else "as(max(v, w), L)"
+        return "as(min(%s + w, %d), L)" % (v, cap) if op == "add" else "as(max(%s, w), L)" % v
     if kind == "min":
-        return "as(max(v - w, %d), L)" % -cap if op == "add" else "as(min(v, w), L)"
-    return "as((v bor w) band 255, L)"
+        return "as(max(%s - w, %d), L)" % (v, -cap) if op == "add" else "as(min(%s, w), L)" % v
+    return "as((%s bor w) band 255, L)" % v
 
 
 def gen(ch):
     kind = ch.choice(["max", "min", "bor"])
     N = ch.int(3, 6)
     edges = sorted({(ch.int(0, N), ch.int(0, N), ch.int(0, 7) if kind != "bor" else 1 << ch.int(0, 6)) for _ in range(ch.int(2, 12))})
-    nk = ch.choice([1, 1, 2])      # (nk = 0 is known finding F24: no termination; probed separately)
-    seeds = sorted({(ch.int(0, N), ch.int(0, N), (ch.int(0, 9) if kind == "max" else -ch.int(0, 9) if kind == "min" else 1 << ch.int(0, 6))) for _ in range(ch.int(1, 6))})
+    compiled = ch.bool(0.015)      # a C++ compile per case: rare, and biased to the shapes where the synthesised indexes matter
+    nk = ch.choice([2, 2, 1] if compiled else [1, 1, 2])      # (nk = 0 is known finding F24: no termination; probed separately)
+    nl = ch.choice([1, 1, 2])      # number of lattice columns
+
+    def val():
+        return ch.int(0, 9) if kind == "max" else -ch.int(0, 9) if kind == "min" else 1 << ch.int(0, 6)
+    seeds = sorted({(ch.int(0, N), ch.int(0, N), val(), val()) for _ in range(ch.int(1, 6))})
     cap = ch.int(10, 40)
-    rules = []     # (target rel, kind of rule, params)
+    rules = []     # (target rel, transfer of the first lattice column, reversed edge, transfer of the second lattice column)
     nrules = ch.int(1, 3)
     for _ in range(nrules):
-        rules.append(("rec", ch.choice(["add", "join", "id"]), ch.bool(0.3)))
+        rules.append(("rec", ch.choice(["add", "join", "id"]), ch.bool(0.3), ch.choice(["add", "join", "id", "id"])))
     second = ch.bool(0.4)
-    return {"kind": kind, "N": N, "edges": [list(e) for e in edges], "seeds": [list(s) for s in seeds], "nk": nk, "cap": cap, "rules": rules,
-            "second": second, "j": ch.choice(["-j1", "-j4"])}
+    partial = ch.bool(0.85 if compiled else 0.5)
+    picks = sorted({ch.int(0, N) for _ in range(ch.int(1, 3))})
+    return {"kind": kind, "N": N, "edges": [list(e) for e in edges], "seeds": [list(s) for s in seeds], "nk": nk, "nl": nl, "cap": cap, "rules": rules,
+            "second": second, "partial": partial, "picks": picks, "compiled": compiled, "j": ch.choice(["-j1", "-j4"])}
 
 
 def key_of(nk, x, y):
@@ -79,56 +86,76 @@ def key_of(nk, x, y):
 
 def build(case):
     L = LATT[case["kind"]]
-    nk = case["nk"]
+    nk, nl = case["nk"], case.get("nl", 1)
     lines = [".type L <: number", ".functor lmax(a:L, b:L):L stateful", ".functor lmin(a:L, b:L):L stateful", ".functor lbor(a:L, b:L):L stateful", ".functor lband(a:L, b:L):L stateful",
              ".lattice L<> {\n    Bottom -> %d,\n    Top -> %d,\n    Lub -> @%s(_,_),\n    Glb -> @%s(_,_)\n}" % (L["bot"], L["top"], L["lub"], L["glb"]),
              ".decl e(x:number, y:number, w:number)"]
     lines += ["e(%d, %d, %d)." % tuple(e) for e in case["edges"]]
-    lines.append(".decl s(x:number, y:number, v:number)")
-    lines += ["s(%d, %d, %d)." % tuple(s) for s in case["seeds"]]
+    lines.append(".decl s(x:number, y:number, v:number, u:number)")
+    lines += ["s(%d, %d, %d, %d)." % tuple((list(s) + [s[2]])[:4]) for s in case["seeds"]]
     kd = "".join("k%d:number, " % i for i in range(nk))
-    lines += [".decl r(%sv:L<>)" % kd, ".output r"]
+    lines += [".decl r(%sv:L<>%s)" % (kd, ", u:L<>" if nl == 2 else ""), ".output r"]
     kx = {0: "", 1: "x, ", 2: "x, y, "}[nk]
-    lines.append("r(%sas(v, L)) :- s(x, y, v)." % kx)
-    for (_, op, rev) in case["rules"]:
+    vs = "v, u" if nl == 2 else "v"
+    rest = ", _" if nl == 2 else ""
+    lines.append("r(%sas(v, L)%s) :- s(x, y, v, u)." % (kx, ", as(u, L)" if nl == 2 else ""))
+    for rule in case["rules"]:
+        op, rev = rule[1], rule[2]
+        op2 = rule[3] if len(rule) > 3 else "id"
         tt = transfer_text(case["kind"], op, case["cap"])
+        if nl == 2:
+            tt += ", " + transfer_text(case["kind"], op2, case["cap"], "u")
         if nk == 0:
-            lines.append("r(%s) :- r(v), e(_, _, w)." % tt if op != "id" else "r(v) :- r(v), e(_, _, _).")
+            lines.append("r(%s) :- r(%s), e(_, _, w)." % (tt, vs))
         elif nk == 1:
-            lines.append("r(y, %s) :- r(x, v), e(%s, w)." % (tt, "y, x" if rev else "x, y"))
+            lines.append("r(y, %s) :- r(x, %s), e(%s, w)." % (tt, vs, "y, x" if rev else "x, y"))
         else:
-            lines.append("r(x, z, %s) :- r(x, y, v), e(%s, w)." % (tt, "z, y" if rev else "y, z"))
+            lines.append("r(x, z, %s) :- r(x, y, %s), e(%s, w)." % (tt, vs, "z, y" if rev else "y, z"))
     if case["second"] and nk >= 1:
-        lines += [".decl r2(k:number, v:L<>)", ".output r2", "r2(x, v) :- r(x, %sv)." % ("_, " if nk == 2 else "")]
-    lines += [".decl rd(%sv:number)" % kd, ".output rd", "rd(%sv) :- r(%sv)." % (kx.replace("x", "a").replace("y", "b"), kx.replace("x", "a").replace("y", "b"))]
+        lines += [".decl r2(k:number, v:L<>)", ".output r2", "r2(x, v) :- r(x, %sv%s)." % ("_, " if nk == 2 else "", rest)]
+    kab = kx.replace("x", "a").replace("y", "b")
+    lines += [".decl rd(%sv:number%s)" % (kd, ", u:number" if nl == 2 else ""), ".output rd", "rd(%s%s) :- r(%s%s)." % (kab, vs, kab, vs)]
+    if case.get("partial") and nk >= 1:
+        # look-ups that bind a proper subset of the key columns (one index per search signature in compiled mode)
+        lines.append(".decl pk(a:number)")
+        lines += ["pk(%d)." % a for a in case["picks"]]
+        if nk == 1:
+            lines += [".decl qa(v:number)", ".output qa", "qa(v) :- pk(x), r(x, v%s)." % rest]
+        else:
+            lines += [".decl qa(y:number, v:number)", ".output qa", "qa(y, v) :- pk(x), r(x, y, v%s)." % rest,
+                      ".decl qb(x:number, v:number)", ".output qb", "qb(x, v) :- pk(y), r(x, y, v%s)." % rest]
     return "\n".join(lines) + "\n"
 
 
 def model(case):
-    kind, nk, cap = case["kind"], case["nk"], case["cap"]
+    kind, nk, cap, nl = case["kind"], case["nk"], case["cap"], case.get("nl", 1)
     R = {}
     contrib = {}
 
-    def put(k, v, it):
-        contrib.setdefault(k, set()).add((v, it))
+    def put(k, vals, it):
+        contrib.setdefault(k, set()).add((vals, it))
         if k not in R:
-            R[k] = v
+            R[k] = vals
             return True
-        nv = join(kind, R[k], v)
+        nv = tuple(join(kind, a, b) for a, b in zip(R[k], vals))   # every lattice column is joined on its own
         if nv != R[k]:
             R[k] = nv
             return True
         return False
-    for (x, y, v) in case["seeds"]:
-        put(key_of(nk, x, y), v, 0)
+    for sd in case["seeds"]:
+        x, y, v = sd[0], sd[1], sd[2]
+        u = sd[3] if len(sd) > 3 else v
+        put(key_of(nk, x, y), (v, u)[:nl], 0)
     it = 0
     changed = True
     while changed and it < 500:
         it += 1
         changed = False
         snap = dict(R)
-        for (_, op, rev) in case["rules"]:
-            for k, v in snap.items():
+        for rule in case["rules"]:
+            op, rev = rule[1], rule[2]
+            ops = (op, rule[3] if len(rule) > 3 else "id")[:nl]
+            for k, vals in snap.items():
                 for (a, b, w) in case["edges"]:
                     if nk == 0:
                         tgt = ()
@@ -142,7 +169,7 @@ def model(case):
                         if k[1] != src:
                             continue
                         tgt = (k[0], dst)
-                    if put(tgt, transfer(kind, op, v, w, cap), it):
+                    if put(tgt, tuple(transfer(kind, o, v, w, cap) for o, v in zip(ops, vals)), it):
                         changed = True
     return R, contrib, it
 
@@ -152,14 +179,16 @@ def judge(case, st=None):
     case["rules"] = [tuple(r) for r in case["rules"]]
     prog = build(case)
     R, contrib, iters = model(case)
-    nk = case["nk"]
+    nk, nl = case["nk"], case.get("nl", 1)
+    compiled = bool(case.get("compiled"))
     with Scratch("c12") as d:
         write_files(d, {"p.dl": prog})
         os.makedirs(os.path.join(d, "out"), exist_ok=True)
-        rr = souffle(["-D", "out", "-L" + libdir(), "-lfunctors", case["j"], "p.dl"], cwd=d, timeout=60)
+        rr = souffle(["-D", "out", "-L" + libdir(), "-lfunctors", case["j"]] + (["-c"] if compiled else []) + ["p.dl"], cwd=d,
+                     timeout=900 if compiled else 60, env={"LD_LIBRARY_PATH": libdir()})
         outs = read_outputs(os.path.join(d, "out"))
     if rr.timeout:
-        raise Inconclusive("timeout")
+        raise Inconclusive("timeout" + (":compiled" if compiled else ""))
     if rr.rc != 0:
         raise Violation("souffle failed on a lattice program: rc=%s\n%s" % (rr.rc, rr.err[-1200:]), {"case": case, "program": prog})
     msgs = []
@@ -167,9 +196,9 @@ def judge(case, st=None):
         rows = [tuple(int(x) for x in ln.split("\t")) for ln in (outs.get(name) or [])]
         got = {}
         for t in rows:
-            k, v = t[:nk], t[nk]
+            k, v = t[:nk], t[nk:]
             if k in got:
-                msgs.append("%s holds two tuples for key %r: values %d and %d" % (name, k, got[k], v))
+                msgs.append("%s holds two tuples for key %r: values %r and %r" % (name, k, got[k], v))
             got[k] = v
         if set(got) != set(R):
             msgs.append("%s: keys missing %r, spurious %r" % (name, sorted(set(R) - set(got))[:5], sorted(set(got) - set(R))[:5]))
@@ -180,7 +209,7 @@ def judge(case, st=None):
         rows = [tuple(int(x) for x in ln.split("\t")) for ln in (outs.get("r2") or [])]
         want = {}
         for k, v in R.items():
-            want[k[0]] = join(case["kind"], want[k[0]], v) if k[0] in want else v
+            want[k[0]] = join(case["kind"], want[k[0]], v[0]) if k[0] in want else v[0]
         got = {}
         for (k, v) in rows:
             if k in got:
@@ -188,14 +217,31 @@ def judge(case, st=None):
             got[k] = v
         if got != want:
             msgs.append("r2 (join over the second key) = %r, expected %r" % (sorted(got.items())[:6], sorted(want.items())[:6]))
+    if case.get("partial") and nk >= 1:
+        picks = set(case["picks"])
+        wants = {"qa": ({(v[0],) for k, v in R.items() if k[0] in picks} if nk == 1 else {(k[1], v[0]) for k, v in R.items() if k[0] in picks})}
+        if nk == 2:
+            wants["qb"] = {(k[0], v[0]) for k, v in R.items() if k[1] in picks}
+        for name, want in wants.items():
+            got = {tuple(int(x) for x in ln.split("\t")) for ln in (outs.get(name) or [])}
+            if got != want:
+                msgs.append("%s (look-up binding part of the key): missing %r spurious %r" % (name, sorted(want - got)[:5], sorted(got - want)[:5]))
     if msgs:
-        raise Violation("lattice relation is not the least fixpoint:\n" + "\n".join(msgs[:8]) + "\n" + prog, {"case": case})
+        raise Violation("lattice relation is not the least fixpoint%s:\n" % (" (compiled mode)" if compiled else "") + "\n".join(msgs[:8]) + "\n" + prog, {"case": case})
     if st is not None:
         rich = any(len({v for v, _ in c}) >= 3 and len({i for _, i in c}) >= 2 for c in contrib.values())
+        if compiled:
+            st.classes["compiled_mode"] += 1
         if rich:
             st.nontrivial.add(common.h(prog))
             st.classes["lattice:" + case["kind"]] += 1
             st.classes["keys=%d" % nk] += 1
+            st.classes["lattice_columns=%d" % nl] += 1
+            if nl == 2 and any(len({v[0] for v, _ in c}) >= 2 and len({v[1] for v, _ in c}) >= 2 and
+                               any(a[0] != b[0] and a[1] == b[1] for a, _ in c for b, _ in c) for c in contrib.values()):
+                st.classes["two_columns:one_changes_while_the_other_stays"] += 1
+            if case.get("partial"):
+                st.classes["partial_key_lookups"] += 1
             st.sample({"program": prog, "fixpoint": {repr(k): v for k, v in sorted(R.items())[:8]}, "iterations": iters})
         else:
             st.classes["trivial"] += 1
@@ -232,5 +278,5 @@ def probes(st, tier, seed):
 
 
 CHECK = PCheck(PID, RULE, gen, judge, quick=1200, thorough=30000, floor=60, probes=probes,
-               assumptions=["interpreter back end (functors loaded through libffi)", "only monotone transfer functions are generated (the least fixpoint is then unique)"])
+               assumptions=["interpreter back end (functors loaded through libffi) except for the ~1% compiled cases", "only monotone transfer functions are generated (the least fixpoint is then unique)"])
 main, replay_file = CHECK.main, CHECK.replay_file
